@@ -145,24 +145,28 @@ class PropertyCheck:
                 found = []
                 self.notes.append("search crashed: " + traceback.format_exc()[-1500:])
             viols += found
-            if not viols:
-                viols.append(Violation(
-                    "unproved:" + ";".join(sorted(set(b.kind + ":" + b.what.split(" ")[0] for b in self.broken)))[:300],
-                    "no longer shown to hold: " + "; ".join("%s %s" % (b.kind, b.what) for b in self.broken[:6]),
-                    {"broken": [b.as_dict() for b in self.broken]}, found_input=False))
         # ---- known findings
         kf = vlib.known_findings()
+
+        def known_entry(v):
+            for k in kf.get("known", []):
+                if k["property"] == self.pid and re.search(k["key"], v.key):
+                    return k
+            return None
+        # something is broken and no NEW concrete failing input was found: the property is no longer shown to hold
+        # (a known finding must not mask this)
+        if self.broken and not any(v.found_input and known_entry(v) is None for v in viols):
+            viols.append(Violation(
+                "unproved:" + ";".join(sorted(set(b.kind + ":" + b.what.split(" ")[0] for b in self.broken)))[:300],
+                "no longer shown to hold: " + "; ".join("%s %s" % (b.kind, b.what) for b in self.broken[:6]),
+                {"broken": [b.as_dict() for b in self.broken]}, found_input=False))
         nviol = 0
         seen_keys = set()
         for v in viols:
             if v.key in seen_keys:
                 continue
             seen_keys.add(v.key)
-            known = None
-            for k in kf.get("known", []):
-                if k["property"] == self.pid and re.search(k["key"], v.key):
-                    known = k
-                    break
+            known = known_entry(v)
             if known:
                 print("KNOWN-FINDING: property=%s %s" % (self.pid, known["what"]))
                 continue
